@@ -591,7 +591,30 @@ func ruleC07_6(c *Ctx, r *Rep) {
 		}
 		return false
 	}
+	// every return that can be true requires the attribute to be present
+	presenceFirst := func(fn *ssa.Function) bool {
+		for _, ret := range returnsOf(fn) {
+			if !isNilConst(retResult(ret, 1)) {
+				continue // error returns
+			}
+			if cst, ok := retResult(ret, 0).(*ssa.Const); ok && cst.Value != nil && cst.Value.String() == "false" {
+				continue
+			}
+			if !condHas(edgeConds(ret.Block()), true, func(v ssa.Value) bool {
+				ex, ok := v.(*ssa.Extract)
+				if !ok || ex.Index != 1 {
+					return false
+				}
+				lk, ok := ex.Tuple.(*ssa.Lookup)
+				return ok && lk.CommaOk && sources(lk.X)["param:attrs"] && sources(lk.Index)["field:Name"]
+			}) {
+				return false
+			}
+		}
+		return true
+	}
 	if fn := r.Anchor("C07.6", "(*filter.HasAttributeValue).Evaluate"); fn != nil {
+		r.Check("C07.6", "C07.6:HasAttributeValue:presence-first", fn.Pos(), presenceFirst(fn), "", "a comparison on attribute NAME can be true although NAME is absent (a result other than false is returned on a path that did not establish presence)")
 		okEq, okNe := false, false
 		for _, ret := range returnsOf(fn) {
 			bo, isB := retResult(ret, 0).(*ssa.BinOp)
@@ -619,6 +642,7 @@ func ruleC07_6(c *Ctx, r *Rep) {
 			fmt.Sprintf("`attributes.NAME = / != \"v\"` is not evaluated as presence ∧ (in)equality of attrs[NAME] and the value (eq=%v ne=%v missing⇒false=%v)", okEq, okNe, missingFalse(fn)))
 	}
 	if fn := r.Anchor("C07.6", "(*filter.HasAttributePredicate).Evaluate"); fn != nil {
+		r.Check("C07.6", "C07.6:HasAttributePredicate:presence-first", fn.Pos(), presenceFirst(fn), "", "hasPrefix can be true although the attribute is absent (a result other than false is returned on a path that did not establish presence)")
 		ok := false
 		for _, ci := range callsIn(fn, false, func(cal *ssa.Function, _ ssa.CallInstruction) bool { return fnPkgPath(cal) == "strings" && cal.Name() == "HasPrefix" }) {
 			a := ci.Common().Args
@@ -966,4 +990,105 @@ func ruleC08_3(c *Ctx, r *Rep) {
 	}
 	r.Check("C08.3", key, ret.Pos(), nonEmpty && sawInit && okLoop && okDigit && sawDigit, "returned unquoted only if non-empty and every rune is '_' / letter / digit-not-first",
 		fmt.Sprintf("a name can be printed unquoted although it is not an identifier the filter lexer accepts (non-empty guard=%v, per-rune loop=%v, digits only after the first rune=%v): the printed filter does not parse back", nonEmpty && sawInit, okLoop, okDigit && sawDigit))
+}
+
+// C08.6: a sub-condition is always printed inside parentheses (the grammar admits a Condition as a Term only as "(" … ")").
+func ruleC08_6(c *Ctx, r *Rep) {
+	fn := r.Anchor("C08.6", "(*filter.Term).AsFilter")
+	if fn == nil {
+		return
+	}
+	writes := func(in ssa.Instruction, ch rune) bool {
+		ci, ok := in.(ssa.CallInstruction)
+		if !ok || !ci.Common().IsInvoke() {
+			return false
+		}
+		switch ci.Common().Method.Name() {
+		case "WriteRune":
+			v, isC := constInt(ci.Common().Args[0])
+			return isC && rune(v) == ch
+		case "WriteString":
+			s, isS := constString(ci.Common().Args[0])
+			return isS && s == string(ch)
+		}
+		return false
+	}
+	// every call that prints (part of) the sub-condition: receiver reached through the Sub field
+	var subs []*ssa.Call
+	for _, ci := range callsIn(fn, false, func(cal *ssa.Function, _ ssa.CallInstruction) bool { return cal.Name() == "AsFilter" }) {
+		call := ci.(*ssa.Call)
+		if len(call.Call.Args) > 0 && sources(call.Call.Args[0])["field:Sub"] {
+			subs = append(subs, call)
+		}
+	}
+	if len(subs) == 0 {
+		r.Fail("C08.6", "C08.6:sub-condition-parenthesised", fn.Pos(), "Term.AsFilter does not print its sub-condition")
+		return
+	}
+	open, closed := true, true
+	sub := subs[0]
+	for _, sc := range subs {
+		o := false
+		for _, b := range fn.Blocks {
+			for _, in := range b.Instrs {
+				if writes(in, '(') && instrDominates(in, sc) {
+					o = true
+				}
+			}
+		}
+		if !o {
+			open, sub = false, sc
+		}
+		closeBlocks := map[*ssa.BasicBlock]bool{}
+		for _, b := range fn.Blocks {
+			for _, in := range b.Instrs {
+				if writes(in, ')') {
+					closeBlocks[b] = true
+				}
+			}
+		}
+		if len(closeBlocks) == 0 {
+			closed = false
+		}
+		for b := range reachableFrom([]*ssa.BasicBlock{sc.Block()}, closeBlocks) {
+			if b == sc.Block() {
+				// a return in the same block right after the call
+				after := false
+				for _, in := range b.Instrs {
+					if in == ssa.Instruction(sc) {
+						after = true
+					}
+					if ret, ok := in.(*ssa.Return); ok && after && !returnsNilErrorOrPropagates(ret, sc) {
+						closed, sub = false, sc
+					}
+				}
+				continue
+			}
+			for _, in := range b.Instrs {
+				if ret, ok := in.(*ssa.Return); ok && !returnsNilErrorOrPropagates(ret, sc) {
+					closed, sub = false, sc
+				}
+			}
+		}
+	}
+	r.Check("C08.6", "C08.6:sub-condition-parenthesised", sub.Pos(), open && closed, "\"(\" precedes and \")\" follows every printed sub-condition",
+		"a sub-condition can be printed without its parentheses: e.g. NOT (NOT a) prints as `NOT NOT a`, which the grammar (one NOT per term) rejects — the printed filter does not parse back")
+}
+
+// returnsNilErrorOrPropagates: true for returns that are NOT a successful end of printing: a non-nil error that
+// is not simply the sub-printer's own result handed back. A `return e.Sub.Term.AsFilter(w)` IS a successful end.
+func returnsNilErrorOrPropagates(ret *ssa.Return, sub *ssa.Call) bool {
+	v := retLast(ret)
+	if isNilConst(v) {
+		return false // successful return without having closed the parenthesis
+	}
+	if v == ssa.Value(sub) {
+		// `if err := sub.AsFilter(w); err != nil { return err }` is an error return;
+		// `return sub.AsFilter(w)` hands the sub-printer's result back and succeeds when that succeeds
+		return condHas(edgeConds(ret.Block()), true, func(c ssa.Value) bool {
+			bo, ok := c.(*ssa.BinOp)
+			return ok && bo.Op == token.NEQ && bo.X == ssa.Value(sub) && isNilConst(bo.Y)
+		})
+	}
+	return true // an error return
 }
